@@ -511,6 +511,11 @@ func runC04(c *kernel.Ctx) {
 
 // runC13 picks one of the two C13 campaigns.
 func runC13(c *kernel.Ctx) {
+	if c.Params["campaign"] == "concurrent" || (c.Params["campaign"] == "" && c.Tape.Chance(1, 6)) {
+		c.Logf("campaign concurrent")
+		runC13Concurrent(c)
+		return
+	}
 	if c.Params["campaign"] == "delta" || c13Swarm == nil || c.Tape.Chance(1, 2) {
 		c.Logf("campaign delta")
 		runCRDT(c, true)
